@@ -24,8 +24,11 @@ from . import bodyreq
 PREFIXES = (REPO.rstrip('/') + '/ombott/',)
 
 
-def maybe_wrap(rng, case, share, est_steps=900):
-    """With probability `share`, turn a freshly generated case into a twin case."""
+def maybe_wrap(rng, case, share, est_steps=900, ok=None):
+    """With probability `share`, turn a freshly generated case into a twin case (`ok(case)` can exclude
+    cases whose traced length would be out of proportion, e.g. a 60 kB body read byte-wise)."""
+    if ok is not None and not ok(case):
+        return case
     if os.environ.get('VERIF_TWIN_SHARE'):
         share = float(os.environ['VERIF_TWIN_SHARE'])      # self-tests force all (1.0) or no (0.0) twins
     if rng.random() >= share:
@@ -45,7 +48,7 @@ def run(inner_run, case, *, shared_bodyreq=True, before=None, after=None, step_c
     overlap = [0]
 
     def on_switch(frm, to):
-        if len(inflight) >= 2:
+        if frm in inflight:      # pre-empted in the middle of its request
             overlap[0] += 1
     s.on_switch = on_switch
 
